@@ -7,6 +7,7 @@ mod rng;
 mod p15;
 mod hproj;
 mod p02;
+mod p05;
 mod p04;
 mod p06;
 mod p07;
@@ -124,6 +125,11 @@ fn main() {
         "C14" => p14::run(&args),
         "c14-worker" => {
             p14::worker();
+            return;
+        }
+        "C05" => p05::run(&args),
+        "c05-worker" => {
+            p05::worker();
             return;
         }
         "C07" => p07::run(&args),
